@@ -252,7 +252,10 @@ class UDP6EndpointAddress(interfaces.EndpointAddress):
         return ipaddress.ip_address(self._plainaddress_local()).is_multicast
 
     def as_response_address(self):
-        if not self.is_multicast_locally:
+        if self.pktinfo is None or not self.is_multicast_locally:
+            # Addresses without local address information (in particular
+            # those already produced by this method) are response addresses
+            # already
             return self
 
         # Create a copy without pktinfo, as responses to messages received to
